@@ -31,6 +31,42 @@ TABLE = {
  "C12-b": ("C12", "last_recv_time is refreshed only when the wall-clock second changes (inside the once-per-second statistics branch) instead of on every accepted datagram; the ack timeout uses the local time",
            "a connection timeout configured near the traffic period",
            "detected as built by C12 (clause T_srvdrop: drop time against the configured timeout)"),
+ "C02-b": ("C02", "ServerContext._validateChallengeResponse accepts any token currently in use by some client instead of the token issued to this connection",
+           "a second client alive on the server; the first answers the challenge with the second client's token (which travels in clear)",
+           "detected as built by C02 (Handshake.tla attacker action atk-challenge with a foreign token, replayed into the real server)"),
+ "C06-b": ("C06", "RetrySender re-queues a timed-out message as PacketType.APP, so a retransmitted fragment goes out typed as a whole message",
+           "a fragmented RETRY_ON_TIMEOUT message while every datagram of one direction is lost for more than the 1 s ack time-out",
+           "C05 and C07 as built (clause B_known: a built datagram carries a message the sender never queued in that form); missed by C06 as built - its scenarios had iid loss only; detected by C06 after link outages (0.5-2.5 s of total loss in one direction) were added to the world and to a C06 scenario"),
+ "C08-b": ("C08", "_recv_datagram inserts the header's sequence number into the duplicate window before the datagram is authenticated (same mechanism as C11-a, produced independently)",
+           "a datagram with a well-formed header that fails authentication (bit flip in transit, forged header) carrying a not-yet-received sequence number",
+           "C01 and C11 as built; missed by C08 as built - its histories contained genuine datagrams only; detected by C08 after a scenario with datagrams damaged in transit was added together with clause F_window (a datagram that fails authentication never enters the windows)"),
+ "C11-b": ("C11", "the server queues its SERVER_HELLO as BEST_EFFORT, so a half-open address is sent about nine copies",
+           "one well-formed CLIENT_HELLO from an address that never answers, and half a second of server time",
+           "detected as built by C11 (clause A_noamplify: bytes sent to an address that has not completed the handshake never exceed the bytes received from it)"),
+ "C13-b": ("C13", "serialize_int encodes ints above 2**63-1 with the type id uint64_t, which collides with float32_t in the decoder table",
+           "an int in 2**63 .. 2**64-1 anywhere in a value",
+           "detected as built by C13 (Codec.tla int boundary terms: outcome ok, decoded float, consumed 6 of 10 bytes)"),
+ "C14-b": ("C14", "deserialize_seq preallocates the list from the announced length before reading any item",
+           "nested sequences each announcing the maximal length (1.4 kB of input -> 31 MB)",
+           "missed as built (the corpus nested only honest lengths and announced large lengths only at depth one); detected by C14 after nested maximal announced lengths were added to the hostile corpus (Obs_Decoder!MemBound)"),
+ "C15-b": ("C15", "_fromJsonBasic casts string dictionary keys to int through float()",
+           "a Dict[int, X] field with a key a double cannot hold (beyond 2**53), after a real JSON string trip",
+           "missed as built (int keys of the fixture were 1 and -1); detected by C15 after keys 2**53, 2**53+1, 2**63-1 and -(2**53+1) and large list/set elements were added to Obs_Json!FieldChoices"),
+ "C16-b": ("C16", "the regular expression generated for ':name+' becomes lazy '/([^/].*?)' and so accepts empty segments after the first one",
+           "a ':name+' route and a request path with an empty segment (double slash) after the first bound segment",
+           "missed as built: Router.tla left ':n+' against a path with empty segments unspecified; the specification now says no match (':n+' repeats what ':n' binds, a non-empty segment), which the repaired tree satisfies; '?' and '*' stay unspecified there"),
+ "C17-b": ("C17", "path_join_safe caches abspath(root) per root string in a module-level dict",
+           "a relative root, an earlier call with the same root string, and a change of working directory in between",
+           "missed as built (the function was observed as a pure function of its arguments); detected by C17 after call histories across working-directory changes with relative roots were added (the root is what the argument denotes when the call is made)"),
+ "C18-b": ("C18", "WebSocketTemporaryHandler.__call__ keeps a local count of buffered bytes and subtracts only payload lengths, not header bytes",
+           "one TCP read holding a complete frame followed by a frame cut within its last few bytes",
+           "detected as built by C18 (Trace_WsStream: every segmentation of a frame sequence)"),
+ "C19-b": ("C19", "hash_password draws the salt from the global random PRNG instead of os.urandom",
+           "the application re-seeding / restoring the global PRNG state between two hash_password calls",
+           "missed as built; detected by C19 after the second round of hashes was made from exactly the PRNG state the first round started in (fresh salts must not depend on application-visible generator state)"),
+ "C20-b": ("C20", "register_function tests for an existing handler before normalising a class annotation to its name, so the test never matches for class annotations",
+           "a second resource handling an already-handled message class, annotated with the class object",
+           "detected as built by C20 (Dispatch.tla graph replay: instance r1b of the same class)"),
 }
 
 HOW = ("tools/seed_eval.sh: fresh scratch worktree of /repo outside /repo and /verif, demo run before and after git apply, full pytest suite "
